@@ -124,7 +124,7 @@ Definition list_tables (e : env) (s : seg) (g : graph) : res (list dataset) :=
 Record sel := { s_g : graph; s_tables : list dataset; s_columns : list xcol; s_barriers : list (nat * nat) }.
 
 Definition handle_swap_partition (e : env) (s : seg) (g : graph) : res graph :=
-  if String.eqb (e_dialect e) "vertica" && tyis s "select_clause" then
+  if e_vertica e && tyis s "select_clause" then
     match get_child s ["select_clause_element"] with
     | Some sce =>
       match get_child sce ["function"] with
